@@ -12,6 +12,7 @@ from ..core import (
     walk_local,
     calls_in,
     block_raises,
+    strip_docstring,
 )
 from ..cfg import cfg_of
 
@@ -483,3 +484,222 @@ def dtype_narrowing(prog, rep, rule, fns=None):
                 f"`{tgt}` has dtype {dt.split(':')[0]} ({short(alloc.value, 50)}) but receives `{short(val, 40)}`: numpy silently truncates / wraps "
                 "real-valued data (e.g. -1.75 becomes -1)")
     return n
+
+
+# ---- what a set-valued function collects ------------------------------------------------------
+def union_summary(fn):
+    """Summarise a function that builds and returns a set: frozenset of contributions
+         ('each', <iterable text>, <element text with the loop variable written $>, <filter text or None>)
+         ('one', <set expression text>, <guard text or None>)
+         ('elem', <element expression text>, <guard text or None>)
+    or None when the function does something this little algebra does not model (then the caller must not guess).
+    Recognised spellings: set()/set(E)/{a, b}/A | B/A.union(B, ...)/set().union(*[E for v in I])/{x for v in I for x in E}
+    and an accumulator filled with .update / |= / .add, inside `for v in I` loops and `if` guards."""
+    import copy
+    from ..canon import _else_form
+
+    body = _else_form(copy.deepcopy(strip_docstring(fn.node.body)))
+    # `if g: ...; return acc  else: ...; return acc`  ->  single trailing `return acc`
+    def leaf_returns(stmts):
+        if not stmts:
+            return None
+        last = stmts[-1]
+        if isinstance(last, ast.Return) and isinstance(last.value, ast.Name):
+            return {last.value.id}
+        if isinstance(last, ast.If) and last.orelse:
+            a, b = leaf_returns(last.body), leaf_returns(last.orelse)
+            return None if a is None or b is None else a | b
+        return None
+
+    def drop_leaf_returns(stmts):
+        last = stmts[-1]
+        if isinstance(last, ast.Return):
+            stmts.pop()
+            if not stmts:
+                stmts.append(ast.Pass())
+        else:
+            drop_leaf_returns(last.body)
+            drop_leaf_returns(last.orelse)
+
+    if body and isinstance(body[-1], ast.If):
+        names = leaf_returns(body)
+        if names is not None and len(names) == 1:
+            drop_leaf_returns(body)
+            body.append(ast.Return(value=ast.Name(id=next(iter(names)), ctx=ast.Load())))
+    rets = [n for st in body for n in ast.walk(st) if isinstance(n, ast.Return)]
+    if len(rets) != 1 or rets[0].value is None or rets[0] is not body[-1]:
+        return None
+
+    def sub(expr, var):
+        e = ast.parse(unparse(expr), mode="eval").body
+        for n in ast.walk(e):
+            if isinstance(n, ast.Name) and n.id == var:
+                n.id = "$"
+        return unparse(e)
+
+    def comp(c, guard):
+        """comprehension / generator whose elements are SETS to be united (flatten=True) or elements"""
+        if len(c.generators) == 1 and isinstance(c.generators[0].target, ast.Name):
+            g = c.generators[0]
+            flt = " and ".join(unparse(i) for i in g.ifs) or None
+            if flt is not None:
+                flt = sub(ast.parse(flt, mode="eval").body, g.target.id)
+            return g, flt
+        return None, None
+
+    def ev(e, guard):
+        if isinstance(e, ast.Call):
+            d = dotted(e.func)
+            if d == "set" and not e.args and not e.keywords:
+                return set()
+            if d in ("set", "frozenset") and len(e.args) == 1 and not e.keywords:
+                a = e.args[0]
+                if isinstance(a, (ast.ListComp, ast.GeneratorExp, ast.SetComp)):
+                    g, flt = comp(a, guard)
+                    if g is None:
+                        return None
+                    return {("each-elem", unparse(g.iter), sub(a.elt, g.target.id), flt)}
+                return {("one", unparse(a), guard)}
+            if isinstance(e.func, ast.Attribute) and e.func.attr == "copy" and not e.args and not e.keywords:
+                return ev(e.func.value, guard)
+            if isinstance(e.func, ast.Attribute) and e.func.attr == "union" and not e.keywords:
+                base = ev(e.func.value, guard) if not (isinstance(e.func.value, ast.Name) and e.func.value.id == "set") else set()
+                if base is None:
+                    return None
+                out = set(base)
+                for a in e.args:
+                    if isinstance(a, ast.Starred):
+                        inner = a.value
+                        if isinstance(inner, (ast.ListComp, ast.GeneratorExp)):
+                            g, flt = comp(inner, guard)
+                            if g is None:
+                                return None
+                            out.add(("each", unparse(g.iter), sub(inner.elt, g.target.id), flt))
+                        else:
+                            return None
+                    else:
+                        r = ev(a, guard)
+                        if r is None:
+                            r = {("one", unparse(a), guard)}
+                        out |= r
+                return out
+            return None
+        if isinstance(e, ast.Set):
+            return {("elem", unparse(x), guard) for x in e.elts}
+        if isinstance(e, ast.SetComp):
+            if len(e.generators) == 2 and isinstance(e.generators[0].target, ast.Name) and isinstance(e.generators[1].target, ast.Name) \
+                    and unparse(e.elt) == e.generators[1].target.id and not e.generators[1].ifs:
+                g = e.generators[0]
+                flt = " and ".join(unparse(i) for i in g.ifs) or None
+                return {("each", unparse(g.iter), sub(e.generators[1].iter, g.target.id), flt and sub(ast.parse(flt, mode="eval").body, g.target.id))}
+            return None
+        if isinstance(e, ast.BinOp) and isinstance(e.op, ast.BitOr):
+            a, b = ev(e.left, guard), ev(e.right, guard)
+            if a is None:
+                a = {("one", unparse(e.left), guard)}
+            if b is None:
+                b = {("one", unparse(e.right), guard)}
+            return a | b
+        if isinstance(e, ast.Name):
+            return acc(e.id)
+        if isinstance(e, ast.Attribute):
+            return {("one", unparse(e), guard)}
+        return None
+
+    seen = set()
+
+    def acc(name):
+        if name in seen:
+            return None
+        seen.add(name)
+        out = set()
+        found_init = False
+
+        def walk(stmts, loop, guard):
+            nonlocal found_init
+            for s in stmts:
+                if isinstance(s, ast.Assign) and len(s.targets) == 1 and isinstance(s.targets[0], ast.Name) and s.targets[0].id == name:
+                    v = s.value
+                    # acc = acc | E  /  acc = acc.union(E)
+                    selfref = any(isinstance(n, ast.Name) and n.id == name for n in ast.walk(v))
+                    if selfref:
+                        if isinstance(v, ast.BinOp) and isinstance(v.op, ast.BitOr) and unparse(v.left) == name:
+                            if not contribute(v.right, loop, guard):
+                                return False
+                        elif isinstance(v, ast.Call) and isinstance(v.func, ast.Attribute) and v.func.attr == "union" and unparse(v.func.value) == name \
+                                and len(v.args) == 1 and not isinstance(v.args[0], ast.Starred):
+                            if not contribute(v.args[0], loop, guard):
+                                return False
+                        else:
+                            return False
+                    else:
+                        if loop is not None or guard is not None or found_init:
+                            return False
+                        r = ev(v, None)
+                        if r is None:
+                            return False
+                        out.update(r)
+                        found_init = True
+                elif isinstance(s, ast.AugAssign) and isinstance(s.target, ast.Name) and s.target.id == name:
+                    if not isinstance(s.op, ast.BitOr) or not contribute(s.value, loop, guard):
+                        return False
+                elif isinstance(s, ast.Expr) and isinstance(s.value, ast.Call) and isinstance(s.value.func, ast.Attribute) \
+                        and unparse(s.value.func.value) == name:
+                    c = s.value
+                    if c.func.attr == "update" and len(c.args) >= 1 and not c.keywords:
+                        for a in c.args:
+                            if not contribute(a, loop, guard):
+                                return False
+                    elif c.func.attr == "add" and len(c.args) == 1:
+                        if loop is not None:
+                            out.add(("each-elem", loop[0], sub(c.args[0], loop[1]), guard))
+                        else:
+                            out.add(("elem", unparse(c.args[0]), guard))
+                    else:
+                        return False
+                elif isinstance(s, ast.For):
+                    if s.orelse or loop is not None or not isinstance(s.target, ast.Name):
+                        if any(isinstance(n, ast.Name) and n.id == name for n in ast.walk(s)):
+                            return False
+                        continue
+                    if any(isinstance(n, (ast.Break, ast.Continue, ast.Return)) for n in ast.walk(s)):
+                        if any(isinstance(n, ast.Name) and n.id == name for n in ast.walk(s)):
+                            return False
+                    if not walk(s.body, (unparse(s.iter), s.target.id), guard):
+                        return False
+                elif isinstance(s, ast.If):
+                    g = unparse(s.test)
+                    if loop is not None:
+                        g = sub(s.test, loop[1])
+                    g1 = g if guard is None else f"{guard} and {g}"
+                    g2 = f"not ({g})" if guard is None else f"{guard} and not ({g})"
+                    if not walk(s.body, loop, g1) or not walk(s.orelse, loop, g2):
+                        return False
+                elif isinstance(s, (ast.Return, ast.Pass)):
+                    continue
+                elif isinstance(s, ast.Expr) and isinstance(s.value, ast.Constant):
+                    continue
+                else:
+                    if any(isinstance(n, ast.Name) and n.id == name for n in ast.walk(s)):
+                        return False
+            return True
+
+        def contribute(e, loop, guard):
+            if loop is not None:
+                uses_var = any(isinstance(n, ast.Name) and n.id == loop[1] for n in ast.walk(e))
+                if uses_var:
+                    out.add(("each", loop[0], sub(e, loop[1]), guard))
+                    return True
+            r = ev(e, guard)
+            if r is None:
+                out.add(("one", unparse(e), guard))
+            else:
+                out.update(r)
+            return True
+
+        if not walk(body, None, None) or not found_init:
+            return None
+        return out
+
+    r = ev(rets[0].value, None)
+    return None if r is None else frozenset(r)
